@@ -30,6 +30,7 @@ import (
 	"errors"
 	"fmt"
 	"math/big"
+	"runtime"
 	"runtime/debug"
 	"sort"
 	"strings"
@@ -492,17 +493,33 @@ type trace struct {
 
 // mapVariant decides the start offset of every Go map iteration on the goroutine that runs the
 // commit path, which makes the physical write order a function of (history, granularity, variant).
+// Variant 0: every iteration starts at bucket 0 / offset 0; 1: at the last bucket / offset 1 (a
+// two-entry map is walked in the opposite order); 2 and 3 alternate between the two from one
+// iteration to the next (neighbouring accounts get opposite code-vs-storage orders).
 func installMapOrder(variant int) {
+	calls := 0
 	mapiter.Install(func(count int, B uint8) (uintptr, bool) {
-		if variant == 0 {
+		v := variant
+		if variant >= 2 {
+			v = (variant + calls) & 1
+			calls++
+		}
+		if v == 0 {
 			return mapiter.Start(0, 0, B), true
 		}
 		nb := 1 << B
-		return mapiter.Start((nb-1)*(variant&1), variant&7, B), true
+		return mapiter.Start(nb-1, 1, B), true
 	})
 }
 
 func runHistory(h History, scale, failAt, mapVar int) (tr *trace) {
+	return runHistoryEx(h, scale, failAt, mapVar, false)
+}
+
+// runHistoryEx: after an injected write error the commit is issued again, either on the same state
+// object (reexec=false: what AddBlockOnChain does with its verifiedBlocks cache) or by executing
+// the block again from the parent root on a new state object (reexec=true: cache miss).
+func runHistoryEx(h History, scale, failAt, mapVar int, reexec bool) (tr *trace) {
 	rec := newRec(scale, failAt)
 	tr = &trace{rec: rec}
 	installMapOrder(mapVar)
@@ -557,9 +574,16 @@ func runHistory(h History, scale, failAt, mapVar int) (tr *trace) {
 			}
 			cerr = commit()
 			if cerr != nil && errors.Is(cerr, errInjected) {
-				// the chain keeps the executed state object (verifiedBlocks cache) and commits it again
-				// when the block is added again
 				retried = true
+				if reexec {
+					if st, err = account.NewAccountDB(parentRoot, live); err != nil {
+						cerr = fmt.Errorf("open parent again: %v", err)
+						return
+					}
+					for _, o := range blk.Ops {
+						applyReal(st, o)
+					}
+				}
 				cerr = commit()
 			}
 		})
@@ -798,6 +822,7 @@ type Case struct {
 	Mode    string  `json:"mode"`    // prefix | fault
 	P       int     `json:"p"`       // prefix length / ordinal of the failing write
 	Root    int     `json:"root"`    // block index whose root was examined
+	Reexec  bool    `json:"reexec"`  // fault mode: block executed again on a new state object (else same object committed again)
 }
 
 type viol struct {
@@ -929,13 +954,13 @@ func checkPrefixes(h History, scale, mapVar int, s *stats) (vs []viol, tr *trace
 
 // checkFaults: every physical write of the history fails once; the commit is issued again; all
 // roots that were finally acknowledged must be durable on the final image.
-func checkFaults(h History, scale, mapVar, nwrites int, s *stats, expired func() bool) (vs []viol, done bool) {
+func checkFaults(h History, scale, mapVar, nwrites int, reexec bool, s *stats, expired func() bool) (vs []viol, done bool) {
 	seen := map[string]bool{}
 	for p := 0; p < nwrites; p++ {
 		if expired() {
 			return vs, false
 		}
-		tr := runHistory(h, scale, p, mapVar)
+		tr := runHistoryEx(h, scale, p, mapVar, reexec)
 		s.evals++
 		if !tr.rec.failed {
 			s.out("fault-not-reached")
@@ -970,9 +995,9 @@ func checkFaults(h History, scale, mapVar, nwrites int, s *stats, expired func()
 			}
 			seen[sig] = true
 			vs = append(vs, viol{sig, "write-fault",
-				fmt.Sprintf("history %s scale %d: physical write %d returned an error, the commit was issued again and reported success, but root %x of block %d is %s on the final disk image: %s",
-					h.name(), scale, p, root[:6], bi, f.kind, f.detail),
-				Case{History: h, Scale: scale, MapVar: mapVar, Mode: "fault", P: p, Root: bi}})
+				fmt.Sprintf("history %s scale %d: physical write %d returned an error, the commit was issued again (%s) and reported success, but root %x of block %d is %s on the final disk image: %s",
+					h.name(), scale, p, map[bool]string{false: "same state object", true: "block re-executed"}[reexec], root[:6], bi, f.kind, f.detail),
+				Case{History: h, Scale: scale, MapVar: mapVar, Mode: "fault", P: p, Root: bi, Reexec: reexec}})
 		}
 		cd.close()
 	}
@@ -1055,12 +1080,16 @@ func run(c *fw.Ctx) {
 	// the default pacing that is ~60 collections per second (20 % of the CPU).  Collect by limit instead.
 	debug.SetGCPercent(-1)
 	debug.SetMemoryLimit(256 << 20)
+	runtime.GOMAXPROCS(2) // one enumerating goroutine per worker process; 16 idle Ps only slow down every stop-the-world
 	ts := templates(c.Thorough())
 	maxBig := 1
 	if c.Thorough() {
 		maxBig = 2
 	}
 	mapVars := []int{0, 1}
+	if c.Thorough() {
+		mapVars = []int{0, 1, 2, 3}
+	}
 	var s stats
 	var sampled int
 	capped := false
@@ -1108,24 +1137,26 @@ func run(c *fw.Ctx) {
 				}
 				// write faults: real sizes always; finer granularities only for the small histories
 				if (nbig == 0 || sc == scaleReal) && mv == 0 {
-					fv, done := checkFaults(h, sc, mv, len(tr.rec.log), &s, c.Expired)
-					if !done {
-						capped = true
-					}
-					if len(fv) > 0 {
-						again, _ := checkFaults(h, sc, mv, len(tr.rec.log), &stats{}, never)
-						if !sameSigs(fv, again) {
-							s.out("unstable-observation")
-							fv = nil
+					for _, reexec := range []bool{false, true} {
+						fv, done := checkFaults(h, sc, mv, len(tr.rec.log), reexec, &s, c.Expired)
+						if !done {
+							capped = true
 						}
-					}
-					for _, v := range fv {
-						v = minimise(v, func(h2 History) []viol {
-							t2 := runHistory(h2, sc, -1, mv)
-							r, _ := checkFaults(h2, sc, mv, len(t2.rec.log), &stats{}, never)
-							return r
-						})
-						c.Violation(v.sig, v.part, v.msg, v.cs)
+						if len(fv) > 0 {
+							again, _ := checkFaults(h, sc, mv, len(tr.rec.log), reexec, &stats{}, never)
+							if !sameSigs(fv, again) {
+								s.out("unstable-observation")
+								fv = nil
+							}
+						}
+						for _, v := range fv {
+							v = minimise(v, func(h2 History) []viol {
+								t2 := runHistory(h2, sc, -1, mv)
+								r, _ := checkFaults(h2, sc, mv, len(t2.rec.log), reexec, &stats{}, never)
+								return r
+							})
+							c.Violation(v.sig, v.part, v.msg, v.cs)
+						}
 					}
 				}
 			}
@@ -1195,7 +1226,7 @@ func replay(c *fw.Ctx, raw json.RawMessage) {
 	describeLog(runHistory(cs.History, cs.Scale, -1, cs.MapVar))
 	if cs.Mode == "fault" {
 		tr := runHistory(cs.History, cs.Scale, -1, cs.MapVar)
-		vs, _ = checkFaults(cs.History, cs.Scale, cs.MapVar, len(tr.rec.log), &s, func() bool { return false })
+		vs, _ = checkFaults(cs.History, cs.Scale, cs.MapVar, len(tr.rec.log), cs.Reexec, &s, func() bool { return false })
 	} else {
 		vs, _ = checkPrefixes(cs.History, cs.Scale, cs.MapVar, &s)
 	}
@@ -1219,9 +1250,9 @@ func main() {
 		Assumptions: []string{
 			"one Batch.Write / Put / Delete is atomic and ordered (LevelDB journal semantics); torn writes inside one batch and fsync loss on power failure are outside the bound",
 			"granularities: real value sizes (flush rule ValueSize() >= IdealBatchSize as shipped), and harness batches that over-report ValueSize (x50, x2^20) so that the repository's own flush rule places a batch boundary every 2 KB / after every node; every such boundary is reachable with real (larger) values",
-			"map iteration order inside the commit path is fixed by the harness (2 variants: first / last start position) so that the write log is a function of the case",
+			"map iteration order inside the commit path is fixed by the harness (quick 2 variants: first / last start position; thorough also the two alternating patterns) so that the write log is a function of the case",
 			"the model keeps out of the empty-account deletion rule: every template that touches an account gives it a positive nonce; before every commit the model is cross-checked against what the state object itself returns (accounts destroyed in that block excepted) and a disagreement cuts the history there instead of flagging C03",
-			"write fault = the write returns an error and nothing of it reaches the disk; the harness then calls state.Commit + TrieDB().Commit again on the same objects (what AddBlockOnChain does with its verifiedBlocks cache)",
+			"write fault = the write returns an error and nothing of it reaches the disk; the harness then issues the commit again, once on the same state object (what AddBlockOnChain does with its verifiedBlocks cache) and once by executing the block again from the parent root",
 		},
 		Run: run, Replay: replay,
 		Budget: func(tier string) time.Duration {
